@@ -21,7 +21,7 @@ Local Open Scope Z_scope.
 Inductive cerr :=
   | EmptyImage | ImageTooBig | WidthOverflow | BadPrecision | ComponentCount
   | BadSampling | BadScanScript | BadProgScript | MissingData | BadMcuSize
-  | FractSample | ConversionNotImpl | ArithNotImpl | BadDctCoef | MissingCode | NoQuantTable | NoHuffTable.
+  | FractSample | ConversionNotImpl | ArithNotImpl | BadDctCoef | MissingCode | NoQuantTable | NoHuffTable | BadRestart | BadState | BadLength.
 
 (* ------------------------------------------- arrays of the C code and the trace *)
 Inductive arr :=
@@ -345,6 +345,8 @@ Definition master_start (c : cfg) : M started :=
   | (n0, cur0) :: _ =>
       i0 <- per_scan_setup (f_width c) (f_height c) lossless u n0 cur0
                            (f_restart_interval c) (f_restart_in_rows c) ;;
+      (* jclossls.c start_pass_lossless: the interval must be a whole number of MCU rows *)
+      guard (lossless && negb (i_restart_interval i0 mod i_MCUs_per_row i0 =? 0)) BadRestart ;;;
       ret {| t_lossless := lossless; t_progressive := progressive; t_ncomp := nc; t_setup := u;
              t_scan0 := i0;
              t_stale := existsb (fun nc_cur => existsb (fun x => x >=? nc) (snd nc_cur)) sl |}
